@@ -63,7 +63,10 @@ def call(a, b, dim, p, how, brute):
                 s = cmp.compare(t1, t2, mode=cmp.MODE_COMPARISON_FRECHET, dim=dim, verbose=False)
             else:
                 mode = {"DTW": cmp.MODE_MATCHING_DTW, "FDTW": cmp.MODE_MATCHING_FDTW, "FRECHET": cmp.MODE_MATCHING_FRECHET}[how]
-                m = cmp.match(t1, t2, mode=mode, p=pp, dim=dim, verbose=False)
+                if (len(a) + len(b) + dim) % 4 == 0:
+                    m = cmp.match(t1, t2, mode=mode, p=pp, dim=dim)          # default verbosity (a progress bar)
+                else:
+                    m = cmp.match(t1, t2, mode=mode, p=pp, dim=dim, verbose=False)
                 s = m.score
                 e["nb"] = int(m.nb_links)
                 links = []
